@@ -68,6 +68,8 @@ pub struct DecDrv {
     pub base_flags: u32,
     pub last: Option<TINFLStatus>,
     pub calls: u32,
+    /// announce more input even when everything given has been revealed (prefix experiments)
+    pub more_forever: bool,
 }
 
 #[derive(Clone, Copy, Debug)]
@@ -94,6 +96,7 @@ impl DecDrv {
             base_flags,
             last: None,
             calls: 0,
+            more_forever: false,
         }
     }
 
@@ -111,7 +114,7 @@ impl DecDrv {
         if self.mode == Mode::Flat {
             flags |= F_FLAT;
         }
-        if self.avail_end < data.len() {
+        if self.avail_end < data.len() || self.more_forever {
             flags |= F_MORE;
         }
         if self.mode == Mode::Ring && self.out_pos == self.buf.len() {
@@ -322,4 +325,38 @@ pub fn drive(d: &mut DecDrv, data: &[u8], chunk: usize, budget: usize, on_step: 
             break;
         }
     }
+}
+
+
+/// Decode with the input revealed at the given cut points (ascending byte offsets), unlimited
+/// budget; after each reveal the decoder is called until it asks for input again.
+pub fn run_cuts(data: &[u8], mode: Mode, buf_len: usize, base_flags: u32, cuts: &[usize], more_forever: bool, fill: u8) -> DecResult {
+    let mut d = DecDrv::new(mode, buf_len, base_flags, fill);
+    d.more_forever = more_forever;
+    let mut points: Vec<usize> = cuts.iter().cloned().filter(|&c| c < data.len()).collect();
+    points.push(data.len());
+    let mut prev = 0;
+    'outer: for &c in &points {
+        let mut add = c - prev;
+        prev = c;
+        let mut idle = 0;
+        loop {
+            let o = d.step(data, add, usize::MAX);
+            add = 0;
+            if d.terminal() {
+                break 'outer;
+            }
+            if o.status == TINFLStatus::NeedsMoreInput {
+                break;
+            }
+            // HasMoreOutput: ring wrapped or flat buffer full
+            if o.consumed == 0 && o.written == 0 {
+                idle += 1;
+                if idle > 2 {
+                    break;
+                }
+            }
+        }
+    }
+    DecResult { status: d.last.unwrap(), out: d.out, consumed: d.in_pos, calls: d.calls }
 }
